@@ -271,6 +271,41 @@ func genDecode(g *gen) {
 			emitMsg(g, k.b, mutateField(v.b, f, 1, true))
 			emitMsg(g, k.b, mutateField(v.b, f, -1, true))
 		}
+		// (e) an impossible or maximal 16-bit string length that the message actually honours: the bytes the
+		//     length claims (read as unsigned) are present, followed by the rest of the original message
+		honour := func(b []byte, f wfield, claimed int16) []byte {
+			cur := int(int16(binary.BigEndian.Uint16(b[f.pos:])))
+			if cur < 0 {
+				cur = 0
+			}
+			out := append([]byte{}, b[:f.pos]...)
+			out = binary.BigEndian.AppendUint16(out, uint16(claimed))
+			pad := int(uint16(claimed)) - cur
+			out = append(out, b[f.pos+2:f.pos+2+min(cur, len(b)-f.pos-2)]...)
+			for j := 0; j < pad; j++ {
+				out = append(out, 'x')
+			}
+			return append(out, b[min(len(b), f.pos+2+cur):]...)
+		}
+		var f16k, f16v []wfield
+		for _, f := range k.fields {
+			if f.width == 2 {
+				f16k = append(f16k, f)
+			}
+		}
+		for _, f := range v.fields {
+			if f.width == 2 {
+				f16v = append(f16v, f)
+			}
+		}
+		for _, claimed := range []int16{-32768, -2, 32767} {
+			if len(f16k) > 0 && (i%4 == 0 || g.tier == "thorough") {
+				emitMsg(g, honour(k.b, f16k[g.intn(len(f16k))], claimed), v.b)
+			}
+			if len(f16v) > 0 && (i%4 == 1 || g.tier == "thorough") {
+				emitMsg(g, k.b, honour(v.b, f16v[g.intn(len(f16v))], claimed))
+			}
+		}
 		// (d) random bytes
 		for j := 0; j < 10; j++ {
 			rk := make([]byte, g.intn(12))
